@@ -9,7 +9,11 @@ from .core import AnalysisError, FuncNode, Module, Program, PACKAGE, dotted, wal
 
 def import_table(prog: Program, mod: Module) -> Dict[str, Tuple[str, Optional[str]]]:
     """local name -> (module dotted name, symbol or None for a module alias)."""
+    key = ("import_table", mod.name)
+    if key in prog.memo:
+        return prog.memo[key]
     table: Dict[str, Tuple[str, Optional[str]]] = {}
+    prog.memo[key] = table
     pkg_parts = mod.name.split(".")
     is_pkg = mod.relpath.endswith("__init__.py")
     for node in ast.walk(mod.tree):
@@ -157,6 +161,12 @@ def methods_named(prog: Program, name: str) -> List[Tuple[Module, ast.ClassDef, 
 
 # ---------------------------------------------------------------------------
 # call graph (direct calls + class-hierarchy resolution of method names)
+
+
+def call_graph(prog: Program) -> "CallGraph":
+    if "call_graph" not in prog.memo:
+        prog.memo["call_graph"] = CallGraph(prog)
+    return prog.memo["call_graph"]
 
 
 class CallGraph:
